@@ -150,12 +150,26 @@ def handleSackSt (s : St) : Cur St := do
     pure { s with peerRwnd := rwnd }
   else pure s
 
+/-- `tsn_gt(a, b)`: `(a.wrapping_sub(b) as i32) > 0` -/
+def tsnGt (a b : Nat) : Bool := 0 < u32sub a b ∧ u32sub a b < 2147483648
+
+/-- after FORWARD-TSN: "chunks that were waiting behind the skipped TSNs are in order now" -/
+def fwdDrainBody (s : St) : Cur (St ⊕ St) := do
+  let next := u32add s.cum 1
+  match s.queue.find? (fun e => e.1 = next) with
+  | none => pure (.inr s)
+  | some e =>
+    let s' ← processData { s with queue := s.queue.filter (fun x => x.1 ≠ next) } e.2.2
+    if s'.failed then pure (.inr s') else pure (.inl { s' with cum := next })
+
 def handleForwardTsnSt (s : St) : Cur St := do
   if (← remaining) < 4 then pure s else
   let new ← getU32
   let fuel := (← remaining) + 1
   let _ ← loopM fwdPairsBody fuel 0
-  if new > s.cum then pure { s with cum := new, queue := s.queue.filter (fun e => e.1 > new) }
+  if tsnGt new s.cum then
+    let s : St := { s with cum := new, queue := s.queue.filter (fun e => tsnGt e.1 new) }
+    loopM fwdDrainBody (s.queue.length + 1) s
   else pure s
 
 /-- RE-CONFIG parameter walk with request numbering; state = association state -/
